@@ -14,6 +14,7 @@ import Prov.Props.C07T3
 import Prov.Props.C07T4
 import Prov.Props.C07W
 import Prov.Lemmas.Text
+import Prov.Lemmas.Iso
 import Prov.Lemmas.NsMgr
 import Std.Data.String.ToInt
 
@@ -193,6 +194,12 @@ theorem c07_datetime (h : Heap) (doc : Nat) (m : NsMgr) (t : DateTime) (hiso : p
   have d2 : (xsdU "dateTime" == xsdU "gYear") = false := by decide
   have d3 : (xsdU "dateTime" == xsdU "gYearMonth") = false := by decide
   simp [b1, c1, c2, d1, d2, d3, hiso]
+
+/-- … unconditionally for every valid date-time -/
+theorem c07_datetime_valid (h : Heap) (doc : Nat) (m : NsMgr) (t : DateTime) (hv : ValidDT t) :
+    ∃ tm a, encodeValue (.dt t) = some tm ∧ decodeTerm h doc rdflibHint tm = .ok a ∧
+      (autoLiteral m a none).2 = .ok (.dt t) :=
+  c07_datetime h doc m t (parseIso_iso t hv)
 
 /-- qualified-name values: a name whose namespace is declared on the document comes back with the same URI -/
 theorem c07_qname (h : Heap) (doc : Nat) (m : NsMgr) (hm : m.Inv1) (q : QName) (hd : Declared h doc q.uri) :
